@@ -6,6 +6,5 @@ export GOFLAGS=-mod=mod GOPROXY=off
 python3 lib/gen_main.py
 python3 lib/regen_all.py
 (cd lean && lake build Dawgs dawgsmodel dawgsmodelg)
-cp /repo/go.sum harness/go.sum
-(cd harness && go build -tags verif -o bin/harness .)
+python3 lib/build_harness.py
 echo setup-ok
